@@ -19,6 +19,10 @@
                                       longest type prefix (or annotated), return type = origin or an ancestor
     C04_method_name_partial           the cut that names methods / constructors yields the remainder
     C04_once, C04_once_operations     uniqueness invariant of the namespace container along the pipeline model
+    C04_only_public_symbols           every function / constant element the pipeline model describes has a C name
+                                      without leading `_` that the current namespace claims
+    C04_static_sound, C04_ctor_name   static functions / constructors hang on the longest type prefix and are
+                                      named by the remainder
     C04_to_underscores(_acronym)      CamelCase words → joined by `_`; the acronym rule; C04_classes
   Witnesses of confirmed defects of the unchanged code (each replayed on the real code by
   harness/c04.py, see PENDING_FINDINGS there):
@@ -36,6 +40,7 @@
   * `C04_method_name_partial`: hypothesis `hfind` excludes exactly the input class of the second
     confirmed defect: the stripped symbol occurs earlier in the symbol than at its own position
     (`str.find` returns the leftmost occurrence).  Full statement: `C04_method_name_full`.
+  * `C04_only_public_symbols`, `C04_static_sound`, `C04_ctor_name`: none.
   * `C04_once`: none (the model's own `dupCid` guard turns "two declarations share a C identifier",
     which C forbids, into an error outcome instead of a hypothesis).
   * `C04_to_underscores*`: words are `[A-Z][a-z0-9]+` (at least one lower-case/digit character
@@ -273,6 +278,25 @@ theorem C04_once_operations (st : NsState) (h : st.Inv) :
    fun n => Inv_remove h n, fun a b c d => Inv_pairMove h a b c d id (by intro n; simp),
    fun a b c => Inv_pairClone h a b c, fun a b c => Inv_pairCompat h a b c⟩
 
+/-- Whatever the declarations, the prefix configuration, the includes and the dump: every
+    function and constant element of the described namespace — top level or hung on a type,
+    moved-to copies included — carries a C name that does not start with an underscore and
+    that the splitter attributes to the CURRENT namespace (so by `C04_strip_symbol_foreign`
+    no symbol that only an included namespace claims is ever described). -/
+theorem C04_only_public_symbols (inp : Input) (st : NsState) (h : describe inp = .ok st) (n : Node)
+    (hn : (∃ p ∈ st.names, p.2 = n) ∨ (∃ o ∈ st.owned, o.fn = n))
+    (hk : n.kind = Kind.function ∨ n.kind = Kind.constant) :
+    (∃ name, publicSymbolName inp.env.cfg n.cid = some name) ∧ ∀ rest, n.cid ≠ '_' :: rest := by
+  have hp : PublicSym inp.env.cfg n := by
+    rcases hn with ⟨p, hp, rfl⟩ | ⟨o, ho, rfl⟩
+    · exact (Pub_describe h).top p hp
+    · exact (Pub_describe h).own o ho
+  have hs := hp hk
+  refine ⟨Option.isSome_iff_exists.mp hs, ?_⟩
+  intro rest hr
+  rw [hr, C04_strip_underscore_excluded] at hs
+  cases hs
+
 /-! ### C04_method_ctor_sound -/
 
 /-- A function becomes a method only if it has a first parameter whose type is a class,
@@ -397,6 +421,56 @@ theorem C04_method_ctor_sound_partial (env : Env) (st : NsState) (f : Node) (sub
                   by_cases hsame : (origin.ns == target.ns && origin.name == target.name) = true
                   · simpa using hsame
                   · rw [if_neg hsame] at hv; cases hv
+
+/-! ### static functions and the constructor name -/
+
+/-- A function is hung on a type as a static function only under the LONGEST type prefix of
+    its stripped symbol (see `C04_longest_type`), named by the non-empty remainder after that
+    prefix: moved there for classes, cloned (the original keeps a `moved-to`) for interfaces,
+    records, unions, boxed types and enumerations; nothing else ever owns a static function. -/
+theorem C04_static_sound (st st' : NsState) (f : Node) (sub : Str)
+    (h : pairStaticMethod st f sub = some st') :
+    ∃ owner rest node, splitUscoredByType (typeMap st) sub = some (owner, rest) ∧ rest ≠ [] ∧
+      st.get owner = some node ∧
+      ((node.kind = Kind.cls ∧ st' = st.pairMove f.name owner .static rest id) ∨
+       (node.kind ≠ Kind.cls ∧ isCloneOwnerKind node.kind = true ∧ st' = st.pairClone f.name owner rest)) := by
+  unfold pairStaticMethod at h
+  split at h
+  · cases h
+  · rename_i owner rest hs
+    by_cases he : rest.isEmpty = true
+    · rw [if_pos he] at h; cases h
+    · rw [if_neg he] at h
+      split at h
+      · cases h
+      · rename_i node hg
+        refine ⟨owner, rest, node, hs, ?_, hg, ?_⟩
+        · intro hr; subst hr; exact he rfl
+        · by_cases hc : node.kind = Kind.cls
+          · left
+            rw [if_pos (by simp [hc])] at h
+            exact ⟨hc, (Option.some.inj h).symm⟩
+          · right
+            rw [if_neg (by simp [hc])] at h
+            by_cases hk : isCloneOwnerKind node.kind = true
+            · refine ⟨hc, hk, ?_⟩
+              unfold isCloneOwnerKind at hk
+              rw [if_pos hk] at h
+              exact (Option.some.inj h).symm
+            · unfold isCloneOwnerKind at hk
+              rw [if_neg hk] at h
+              cases h
+
+/-- When a type prefix matches, a constructor is named by exactly the remainder after the
+    longest type prefix and filed under the type registered for it — the `str.find` cut of
+    `C04_method_name_partial` is only taken by annotated constructors without type prefix. -/
+theorem C04_ctor_name (env : Env) (st : NsState) (f : Node) (sub owner rest : Str)
+    (h : splitUscoredByType (typeMap st) sub = some (owner, rest)) :
+    getConstructorName env st f sub = rest ∧
+      getConstructorClass env st f sub = (st.get owner).map targetOfNode := by
+  unfold getConstructorName getConstructorClass
+  rw [h]
+  exact ⟨rfl, rfl⟩
 
 end GIVerif.Naming
 
@@ -585,6 +659,14 @@ def wSummary : Option (List (Str × Str × Option Str) × List (Str × Str × St
   (describe wInput).toOption.map (fun st =>
     (st.names.map (fun p => (p.1, p.2.cid, p.2.movedTo)),
      st.owned.map (fun o => (o.owner, o.fn.name, o.fn.cid, o.fn.movedTo))))
+
+/-- non-vacuity of `C04_once` / `C04_only_public_symbols`: the pipeline model does describe `wInput` -/
+example : (describe wInput).toOption.isSome = true := by decide +kernel
+/-- non-vacuity of `C04_static_sound` / `C04_ctor_name` -/
+example : (pairStaticMethod wSt { wFn with name := "button_get_default".toList, cid := "gtk_button_get_default".toList }
+    "button_get_default".toList).isSome = true := by decide +kernel
+example : splitUscoredByType (typeMap wSt) "button_new_label".toList = some ("Button".toList, "new_label".toList) := by
+  decide +kernel
 
 theorem C04_pipeline_witness :
     (wSummary ==
